@@ -53,6 +53,21 @@ structure LeafImpl where
   call : LeafCall
 deriving DecidableEq, Repr
 
+/-- How an impl treats one of its type parameters (decided by the translator from the impl's
+generics and where-clauses, and from its `trace` body). -/
+inductive Role
+  | traced       -- bounded by `Collect<'gc>` and its values are passed to the tracer
+  | collectOnly  -- bounded by `Collect<'gc>` but never passed to the tracer
+  | static       -- bounded by `'static` (directly, or through `Self: 'static`)
+  | unbounded    -- anything else — **including a bare `'gc` bound**: branded data may sit there
+deriving DecidableEq, Repr
+
+structure Param where
+  name : String
+  pos : Nat      -- position among the type arguments of the self type
+  role : Role
+deriving DecidableEq, Repr
+
 /-- One provided impl. Positions index the type arguments of the self type. -/
 structure Entry where
   shape : Shape
@@ -67,6 +82,11 @@ structure Entry where
   selfStatic : Bool            -- `where Self: 'static`
   ptrFields : List String      -- (internal) fields whose type mentions `'gc`
   tracedFields : List String   -- (internal) fields mentioned in a trace call
+  params : List Param          -- every type parameter of the impl with its role
+  fieldParams : List Nat       -- (types defined in the crate) positions occurring in a field
+                               --   of the definition outside `PhantomData`
+  freeLifetimes : List String  -- lifetimes of the self type that are neither `'gc`, `'static`
+                               --   nor bounded by `'static`
   gate : String
 deriving DecidableEq, Repr
 
@@ -92,12 +112,28 @@ deriving Repr
 
 def Entry.isStaticAt (e : Entry) (k : Nat) : Bool := e.selfStatic || e.staticParams.contains k
 
+/-- Positions whose values can occur inside a value of the type: the model's (trusted) knowledge of
+the foreign containers, joined with what the translator read off the definition for the types the
+crate defines itself.  Every other parameter is *phantom-only* (`PhantomData<T>`, the key type of
+`SlotMap` / `EnumMap`): no value of it is ever stored, so nothing can hide there. -/
+def Entry.held (e : Entry) : List Nat := e.shape.stored ++ e.fieldParams
+
+/-- **No branded value can hide from the tracer**: every parameter that can occur in a field of
+the value and is not traced is bounded by `'static`; no lifetime of the self type is free; and the
+per-parameter roles agree (a parameter classified `unbounded` or `collectOnly` is phantom-only).
+A `'gc` bound is *not* `'static`: `S: 'gc` admits `&'gc T` and `Gc<'gc, T>`. -/
+def Entry.untracedStatic (e : Entry) : Bool :=
+  e.held.all (fun k => e.traced.contains k || e.isStaticAt k) &&
+  e.params.all (fun p =>
+    p.role == .traced || p.role == .static || e.selfStatic || !e.held.contains p.pos) &&
+  e.freeLifetimes.isEmpty
+
 def Entry.complete (e : Entry) : Bool :=
   (match e.shape with | .other _ => false | _ => true) &&
-  e.shape.stored.all (fun k =>
+  e.held.all (fun k =>
     decide (k < e.nparams) &&
     ((e.traced.contains k && (e.constNeeds || e.disjuncts.contains k)) || e.isStaticAt k)) &&
-  e.guards.all (fun g => e.shape.stored.all (fun k => g.contains k || e.isStaticAt k)) &&
+  e.guards.all (fun g => e.held.all (fun k => g.contains k || e.isStaticAt k)) &&
   e.ptrFields.all (fun f => e.tracedFields.contains f)
 
 def Table.complete (t : Table) : Bool :=
@@ -109,9 +145,12 @@ def Table.complete (t : Table) : Bool :=
   (!t.dynForward.present ||
     (t.dynForward.bodyIsDynTrace && t.dynForward.strongToStrong && t.dynForward.weakToWeak))
 
-/-- Entries violating completeness (what the engine reports). -/
+def Table.untracedStatic (t : Table) : Bool := t.entries.all Entry.untracedStatic
+
+/-- Entries violating completeness / the untraced-static rule (what the engine reports). -/
 def Table.violations (t : Table) : List String :=
   t.unclassified.map (fun s => "unclassified: " ++ s) ++
+  (t.entries.filter (fun e => !e.untracedStatic)).map (fun e => "hidden: " ++ e.text) ++
   (t.entries.filter (fun e => !e.complete)).map (fun e => "impl: " ++ e.text) ++
   (if t.gcLeaf == ⟨true, .traceGc⟩ then [] else ["leaf: Gc"]) ++
   (if t.weakLeaf == ⟨true, .traceGcWeak⟩ then [] else ["leaf: GcWeak"]) ++
@@ -166,7 +205,7 @@ def isStatic (t : Table) : Ty → Bool
     | none => false
     | some en => (List.range en.nparams).all (fun k => isStatic t (args k))
 
-/-- Well-typed values: elements sit at stored positions and have the argument's type; the impl's
+/-- Well-typed values: elements sit at held positions and have the argument's type; the impl's
 `'static` bounds hold of the arguments (the compiler enforces them). -/
 def HasType (t : Table) : Val → Ty → Prop
   | .gc _, .gc => True
@@ -175,7 +214,7 @@ def HasType (t : Table) : Val → Ty → Prop
   | .node len pos elem, .app e args =>
     ∃ en, t.entry? e = some en ∧
       (∀ k, en.isStaticAt k = true → k < en.nparams → isStatic t (args k) = true) ∧
-      (∀ j, j < len → pos j ∈ en.shape.stored ∧ pos j < en.nparams ∧ HasType t (elem j) (args (pos j)))
+      (∀ j, j < len → pos j ∈ en.held ∧ pos j < en.nparams ∧ HasType t (elem j) (args (pos j)))
   | _, _ => False
 
 /-- `Collect::trace` of the impl (no short-circuit at this level). -/
